@@ -78,6 +78,20 @@ def _pack_checked(obj) -> bytes:
     return raw
 
 
+def _detached(decode, raw: bytes, fields, what: str, obj):
+    """the item was decoded out of a receive buffer (a bytearray) that the receiver reuses afterwards: value / file names
+    / message of the decoded object are still the ones that were on the wire (core.decode_detached; the view is the
+    op's field view plus the octets the object packs to)"""
+    def view(o):
+        f = dict(fields(o))
+        try:
+            f["raw"] = hx(o.pack())
+        except ValueError:
+            f["raw"] = None
+        return f
+    core.check_detached(decode, raw, view, what, expect=view(obj), memview=core.accepts_memoryview(decode))
+
+
 # ---------------------------------------------------------------- LV
 def _lv_fields(l: CfdpLv):
     return {"value": hx(l.value), "value_len": int(l.value_len), "packet_len": int(l.packet_len)}
@@ -105,6 +119,7 @@ def op_lv_unpack(a):
     # items decoded by earlier calls must still show what they showed then
     f = core.ISOLATION.check("CfdpLv", l, _lv_fields)
     _need(_pack_checked(l) == raw[: l.packet_len], "pack(unpack(b)) != b[:packet_len]")
+    _detached(CfdpLv.unpack, raw, _lv_fields, "CfdpLv.unpack", l)
     return f
 
 
@@ -137,6 +152,7 @@ def op_tlv_unpack(a):
     t = CfdpTlv.unpack(raw)
     f = core.ISOLATION.check("CfdpTlv", t, _tlv_fields)
     _need(_pack_checked(t) == raw[: t.packet_len], "pack(unpack(b)) != b[:packet_len]")
+    _detached(CfdpTlv.unpack, raw, _tlv_fields, "CfdpTlv.unpack", t)
     return f
 
 
@@ -169,6 +185,7 @@ def op_tlv_w_unpack(a):
     core.ISOLATION.check(cls.__name__, o, _tlv_fields)
     out = _wrap_out(o, cls)
     _need(unhx(out["raw"]) == raw[: out["packet_len"]], "pack(unpack(b)) != b[:packet_len]")
+    _detached(cls.unpack, raw, _tlv_fields, cls.__name__ + ".unpack", o)
     return out
 
 
@@ -217,8 +234,10 @@ def op_tlv_fh_pack(a):
 
 def op_tlv_fh_unpack(a):
     raw = unhx(a["raw"])
-    out = _fh_out(_fh_decoded(FaultHandlerOverrideTlv.unpack(raw)))
+    o = _fh_decoded(FaultHandlerOverrideTlv.unpack(raw))
+    out = _fh_out(o)
     _need(unhx(out["raw"]) == raw[: out["packet_len"]], "pack(unpack(b)) != b[:packet_len]")
+    _detached(FaultHandlerOverrideTlv.unpack, raw, _fh_fields, "FaultHandlerOverrideTlv.unpack", o)
     return out
 
 
@@ -280,7 +299,9 @@ def op_tlv_fsreq_unpack(a):
     raw = unhx(a["raw"])
     o = _fsreq_decoded(FileStoreRequestTlv.unpack(raw))
     _declared_len_check(o, raw)
-    return _fsreq_out(o)
+    out = _fsreq_out(o)
+    _detached(FileStoreRequestTlv.unpack, raw, _fsreq_fields, "FileStoreRequestTlv.unpack", o)
+    return out
 
 
 def op_tlv_fsreq_from_tlv(a):
@@ -337,7 +358,9 @@ def op_tlv_fsresp_unpack(a):
     raw = unhx(a["raw"])
     o = _fsresp_decoded(FileStoreResponseTlv.unpack(raw))
     _declared_len_check(o, raw)
-    return _fsresp_out(o)
+    out = _fsresp_out(o)
+    _detached(FileStoreResponseTlv.unpack, raw, _fsresp_fields, "FileStoreResponseTlv.unpack", o)
+    return out
 
 
 def op_tlv_fsresp_from_tlv(a):
